@@ -97,10 +97,10 @@ reached by operations that add no link (deletions, unlinking, attribute writes, 
 links, reopen). Nothing but a new create / append / role assignment can bring an entry back, and
 those never address the deleted object: object keys are never reused. -/
 theorem deleted_stay_deleted (g : Graph) (owner : Path) (cname : String) (key : KeyArg)
-    (c : Cont) (kk : Key) (k : Nat) (i : String) (after : List Op)
+    (c : Cont) (kk : Key) (k : Nat) (after : List Op)
     (hc : openCont g owner cname = some c) (hkk : resolveKeyArg g key = some kk)
     (hown : isOwning c.info.flavour = true) (ht : delTarget g c kk = .ok k)
-    (hi : g.entityId k = some i) (ha : ∀ op ∈ after, addsNoLink op = true) :
+    (ha : ∀ op ∈ after, addsNoLink op = true) :
     step g (.del owner cname key) = g ∨
       ∀ p l, l ∈ (run (step g (.del owner cname key)) after).links p → l.2 ≠ k := by
   rcases step_cases g (.del owner cname key) with ⟨g', happ, hst⟩ | hst
@@ -110,7 +110,7 @@ theorem deleted_stay_deleted (g : Graph) (owner : Path) (cname : String) (key : 
     rw [hc] at hc'; cases hc'
     rw [hkk] at hkk'; cases hkk'
     intro p l hl
-    exact contDel_unlinked hown ht hi hd p l (links_run_addsNoLink g' after ha p l hl)
+    exact contDel_unlinked hown ht hd p l (links_run_addsNoLink g' after ha p l hl)
   · left; exact hst
 
 /-- in particular no container of any owner lists it and no role link leads to it -/
